@@ -53,6 +53,11 @@ func New[H Hash](options ...func(config *Config[H])) (*DBFT[H], error) {
 func (d *DBFT[H]) addTransaction(tx Transaction[H]) {
 	d.Transactions[tx.Hash()] = tx
 	if d.hasAllTransactions() {
+		if d.Context.WatchOnly() && d.isAntiMEVExtensionEnabled() {
+			// Watch-only nodes process PreBlocks too, so PreCommits received
+			// before the last transaction must be verified for them as well.
+			d.verifyPreCommitPayloadsAgainstPreBlock()
+		}
 		if d.IsPrimary() || d.Context.WatchOnly() {
 			return
 		}
